@@ -138,6 +138,16 @@ static void check_view(const Ref& R, int point, const Spectra::verif::FacView& v
     if (std::abs(beta - fB) > 1e3L * u * std::max(fB, u * R.normA)) viol("beta", "f_norm()=" + gnum(beta) + " but ||f||_B=" + gnum(fB));
 }
 
+template <typename M>
+static void hash_node(Fnv& h, const M& H)
+{
+    for (Eigen::Index j = 0; j < H.cols(); j++)
+        for (Eigen::Index i = 0; i < H.rows(); i++)
+        {
+            const double a = std::abs(H(i, j));
+            h.pod(a);
+        }
+}
 // ---------------------------------------------------------------- hook plumbing
 struct HookCtx
 {
@@ -359,6 +369,13 @@ static void drive_from_start(const Ref& R, MakeFac make, const Eigen::Matrix<S, 
                 }
                 L.evaluations++;
                 L.count("states_by_construction");
+                {
+                    Fnv hh;
+                    hh.str(R.key);
+                    hh.str(hc.where);
+                    hash_node(hh, F.m_fac_H);
+                    L.distinct.insert(hh.h);
+                }
                 if (d < depth)
                     for (long k = 1; k <= m - 1; k++)
                     {
